@@ -265,6 +265,22 @@ func checkProperty(c *Ctx, p *Property, known *KnownFile, verifDir string, write
 		if c.cg != nil {
 			cgNodes = len(c.cg.Nodes)
 		}
+		evaluations := 0
+		ruleSet := map[string]bool{}
+		for _, o := range all {
+			evaluations += caseCount(o)
+			ruleSet[o.Rule] = true
+		}
+		crashMu.Lock()
+		abstractCalls, entryPoints := 0, len(crashLog)
+		for _, e := range crashLog {
+			abstractCalls += e.calls
+		}
+		crashMu.Unlock()
+		entered, totalFns, notEntered := c.coverageSummary()
+		if len(notEntered) > 80 {
+			notEntered = append(notEntered[:80], fmt.Sprintf("… and %d more", len(notEntered)-80))
+		}
 		ev := map[string]any{
 			"property_id": p.ID,
 			"tier":        c.Tier,
@@ -273,26 +289,31 @@ func checkProperty(c *Ctx, p *Property, known *KnownFile, verifDir string, write
 			"coverage": map[string]any{
 				"explanation":         p.Explanation,
 				"not_decided":         p.NotDecided,
-				"evaluations":         len(all),
-				"distinct_nontrivial": countDistinctNontrivial(all),
-				"rule": "one evaluation = one static proof obligation (rule × construct) generated from /repo's type-checked source on this run; " +
-					"distinct = distinct rule|construct keys; non-trivial = the discharge needed a guard, dataflow, table or path argument (constant-only discharges are marked trivial and not counted)",
-				"samples":            sampleObligations(all, 3),
-				"obligations":        len(all),
-				"discharged":         discharged,
-				"known_findings":     out.known,
-				"undecided":          len(undecided),
-				"rules":              summaries,
-				"library_packages":   len(c.Lib),
-				"library_functions":  len(c.AllLibFuncs()),
-				"callgraph":          c.cgKind,
-				"callgraph_nodes":    cgNodes,
-				"checker_cmd":        "bin/verifchk check " + p.ID + " --tier " + c.Tier,
-				"exhaustive":         false,
-				"broken":             broken,
-				"vacuous":            vacuous,
-				"sensitivity":        sensitivity,
-				"deciding_technique": "static analysis of the type-checked program (go/types, go/ssa, dominators, def-use); no repository code is executed",
+				"evaluations":         evaluations,
+				"distinct_nontrivial": countDistinctCases(all),
+				"rule": "evaluations = cases decided on this run: one per all-path obligation (rule × construct) plus, for an abstract-interpretation obligation, one per abstract run of its family (the count its discharge text starts with); distinct_nontrivial counts the same cases over distinct non-trivial obligations (the inputs of one family are pairwise distinct by construction; constant-only discharges are trivial and excluded); samples lists obligations and, per family, some of the inputs evaluated; (abstract_entry_point_calls is the total number of calls the abstract machine made into exported entry points in this process); " +
+					"distinct = distinct rule|construct keys; non-trivial = the discharge needed a guard, dataflow, table, path or abstract-run argument (constant-only discharges are marked trivial and not counted)",
+				"abstract_entry_point_calls":       abstractCalls,
+				"abstract_entry_points":            entryPoints,
+				"module_functions_entered_by_runs": entered,
+				"module_functions_with_bodies":     totalFns,
+				"module_functions_not_entered":     notEntered,
+				"samples":                          append(sampleObligations(all, 3), abstractRunSamples(ruleSet)...),
+				"obligations":                      len(all),
+				"discharged":                       discharged,
+				"known_findings":                   out.known,
+				"undecided":                        len(undecided),
+				"rules":                            summaries,
+				"library_packages":                 len(c.Lib),
+				"library_functions":                len(c.AllLibFuncs()),
+				"callgraph":                        c.cgKind,
+				"callgraph_nodes":                  cgNodes,
+				"checker_cmd":                      "bin/verifchk check " + p.ID + " --tier " + c.Tier,
+				"exhaustive":                       false,
+				"broken":                           broken,
+				"vacuous":                          vacuous,
+				"sensitivity":                      sensitivity,
+				"deciding_technique":               "static analysis of the type-checked program (go/types, go/ssa): all-path dataflow / guard / effect rules, and abstract interpretation of the SSA by the checker's own machine over finite input partitions; no repository code is compiled or executed",
 			},
 			"assumptions": p.Assumptions,
 			"wall_s":      time.Since(start).Seconds(),
